@@ -338,6 +338,63 @@ def enumerate_manipulations(chk):
                  "(operation, dropped?, amount delivered) classes", [dict(op=t[3], info=list(t[4]), mode=t[2], chunking=t[8]) for t in tasks[::max(1, len(tasks) // 5)]][:5], viol)
 
 
+def consumer_resume_cases(chk):
+    """records already queued, the transport paused with more ciphertext waiting, and a consumer that calls
+    resumeProducing() from inside registerProducer() on a transport that then delivers synchronously"""
+    from zope.interface import implementer
+    from twisted.internet import interfaces
+
+    @implementer(interfaces.IConsumer)
+    class EagerConsumer:
+        def __init__(self):
+            self.got = []
+
+        def registerProducer(self, producer, streaming):
+            self.producer = producer
+            producer.resumeProducing()
+
+        def unregisterProducer(self):
+            self.producer = None
+
+        def write(self, data):
+            self.got.append(bytes(data))
+    viol = []
+    keys = set()
+    n = 0
+    records = [rec(i, 3 + i) for i in range(4)]
+    for direction in ("s2r", "r2s"):
+        for queued in (1, 2, 3):
+            for expected in (None, sum(len(r) for r in records)):
+                n += 1
+                w, src, dst, link, to_side, stream, bounds = build(records, direction)
+                cut = bounds[queued - 1][1]
+                feed(w, link, to_side, dst, stream[:cut])            # these records wait in _inbound_records
+                dst.pauseProducing()
+                t = dst.transport
+                rest = [stream[cut:]]
+                orig = t.resumeProducing
+
+                def resume(orig=orig, rest=rest):
+                    orig()
+                    if rest:
+                        data = rest.pop()
+                        feed(w, link, to_side, dst, data)            # the paused socket delivers what it was holding
+                t.resumeProducing = resume
+                c = EagerConsumer()
+                dst.connectConsumer(c, expected)
+                if rest:
+                    feed(w, link, to_side, dst, rest.pop())
+                keys.add((direction, queued, expected is None, tuple(c.got) == tuple(records)))
+                if c.got != records[:len(c.got)] or len(c.got) != len(records):
+                    viol.append(dict(oracle="exact-records", sig="consumer-resume-in-register",
+                                     msg="%d record(s) queued, rest delivered during registerProducer: consumer got records of lengths %r, sent %r" % (
+                                         queued, [len(x) for x in c.got], [len(x) for x in records]),
+                                     case=dict(direction=direction, queued=queued, expected=expected)))
+    chk.add_enum("consumer-resume-during-register", n, keys, "k records queued before the consumer is attached, the transport paused with the remaining ciphertext, "
+                 "and a consumer that resumes the producer from inside registerProducer (the transport then delivers synchronously): "
+                 "the consumer must still see the records in the order sent", [dict(queued=2, direction="s2r")], viol)
+
+
 def run(chk):
     chk.assumptions += [
         "the two Connections are obtained by running the real handshake over the simulated network (W2)",
@@ -350,6 +407,7 @@ def run(chk):
         res = explore(sc, log=chk.log if os.environ.get("VERIF_VERBOSE") else None)
         chk.add_result(res)
     if not getattr(chk, "only", None):
+        consumer_resume_cases(chk)
         enumerate_manipulations(chk)
 
 
